@@ -337,6 +337,29 @@ example : (specSources noFilterR [] [⟨[sOther, sFiles, sPkg, sDir, sSha], 0⟩
           { path := ["pool", "main", "h", "hello", "hello_1.tar.gz"], size := 20, ignoreErrors := false }] := by decide +kernel
 example : splitLines "a\n\nb".toList = ["a\n".toList, "\n".toList, "b".toList] := by decide
 
+/-- **C09 (several indices read by one parser).** `PackagesParser` keeps its per-stanza state in the parser object and does not
+    reset it when it opens the next index file; because every file ends with the synthetic blank line, nothing of one index
+    reaches the next: reading the files one after the other derives exactly what the stanzas of all files mean, each on its own. -/
+theorem C09_packages_several_indices (flt : Filter) (ign : List Path) (files : List (List Stanza × Stanza))
+    (hb : ∀ f ∈ files, ∀ st ∈ f.1, 1 ≤ st.blanks) (hok : ∀ f ∈ files, ∀ st ∈ f.1 ++ [f.2], ∀ fld ∈ st.fields, fld.OK)
+    (pool : List PoolFile) :
+    files.foldlM (fun pl f => packagesMachine flt ign ((f.1 ++ [f.2]).flatMap Stanza.lines) pl) pool =
+      specIndex flt ign (files.flatMap (fun f => f.1 ++ [f.2])) pool := by
+  induction files generalizing pool with
+  | nil => rfl
+  | cons f fs ih =>
+    simp only [List.foldlM_cons, List.flatMap_cons]
+    rw [C09_packages_refines flt ign f.1 f.2 (hb f List.mem_cons_self) (hok f List.mem_cons_self) pool]
+    have happ : specIndex flt ign ((f.1 ++ [f.2]) ++ fs.flatMap (fun f => f.1 ++ [f.2])) pool =
+        (specIndex flt ign (f.1 ++ [f.2]) pool) >>= (fun p => specIndex flt ign (fs.flatMap (fun f => f.1 ++ [f.2])) p) := by
+      simp only [specIndex, List.foldlM_append]
+    rw [happ]
+    cases specIndex flt ign (f.1 ++ [f.2]) pool with
+    | error e => rfl
+    | ok p =>
+      simp only [bind, Except.bind]
+      exact ih (fun g hg => hb g (List.mem_cons_of_mem _ hg)) (fun g hg => hok g (List.mem_cons_of_mem _ hg)) p
+
 /-! ### non-vacuity of the refinement: the fields of the example below are well-formed and render to its lines -/
 private def fPkg : Field := { name := kPackage, rest := " a".toList }
 private def fDecoy : Field := { name := "Package-Type".toList, rest := " udeb".toList }
